@@ -83,52 +83,54 @@ def sendFrom (s : SS) (script : List Resp) (j n : Nat) (wait : Int) (retry : Boo
       some { s with acc := acc', posted := max s.posted (j + n), fails := fails + 1 }
     else none
 
-def sstep (st : Option SS) : Op × Ans → Option (Option SS)   -- outer none = violation
-  | (.backoff n, .dur d) => if d == docBackoff n then some st else none
-  | (op, a) =>
-    match st with
-    | none =>
-      (match op, a with
-       | .init d _ _, .inited _ => some (some { drop := d })
-       | _, .notInit => some none
-       | _, _ => none)
-    | some s =>
-      match op, a with
-      | .init _ _ _, .err => some (some s)
-      | .enq b, .ok => some (some { s with enq := s.enq ++ [b], acc := s.acc ++ [false] })
-      | .enq _, .err => some (some s)
-      | .age, .ok => some (some { s with purgeable := s.enq.length })
-      | .purge, .ok => some (some { s with mayPurged := max s.mayPurged s.purgeable })
-      | .dump, .dumped rs =>
-        if rs.length ≤ s.enq.length ∧ s.enq.drop (s.enq.length - rs.length) = rs ∧
-           s.goneOk (s.enq.length - rs.length) then some (some s) else none
-      | .send script, .sent posted wait retry failed =>
-        if posted.isEmpty then
-          -- nothing to send: every batch is released or purged
-          if wait == 0 && !retry && failed == s.fails && s.goneOk s.enq.length then some (some s) else none
-        else
-          -- the posts are a run of consecutive batches starting at some j: no batch
-          -- before j is still owed, and no batch that was never posted is skipped
-          let n := posted.length
-          let js := (List.range (s.enq.length + 1)).filter fun j =>
-            (s.enq.drop j).take n == posted && s.goneOk j && decide (j ≤ max s.posted s.mayPurged)
-          (match js with
-           | [] => none
-           | j :: _ => (sendFrom s script j n wait retry failed).map some)
-      | _, _ => none
+/-- the checker states consistent with answer `a` to `op` from `s`
+    (several when two identical batches make the start of a run of posts ambiguous) -/
+def wstep (s : SS) : Op → Ans → List SS
+  | .init _ _ _, .err => [s]
+  | .enq b, .ok => [{ s with enq := s.enq ++ [b], acc := s.acc ++ [false] }]
+  | .enq _, .err => [s]
+  | .age, .ok => [{ s with purgeable := s.enq.length }]
+  | .purge, .ok => [{ s with mayPurged := max s.mayPurged s.purgeable }]
+  | .dump, .dumped rs =>
+    if rs.length ≤ s.enq.length ∧ s.enq.drop (s.enq.length - rs.length) = rs ∧
+       s.goneOk (s.enq.length - rs.length) then [s] else []
+  | .send script, .sent posted wait retry failed =>
+    if posted.isEmpty then
+      -- nothing to send: every batch is released or purged
+      if wait == 0 && !retry && failed == s.fails && s.goneOk s.enq.length then [s] else []
+    else
+      -- the posts are a run of consecutive batches starting at some j: no batch
+      -- before j is still owed, and no batch that was never posted is skipped
+      let n := posted.length
+      let js := (List.range (s.enq.length + 1)).filter fun j =>
+        (s.enq.drop j).take n == posted && s.goneOk j && decide (j ≤ max s.posted s.mayPurged)
+      js.filterMap fun j => sendFrom s script j n wait retry failed
+  | _, _ => []
 
-def run (obs : List (Op × Ans)) : Option (Option SS) :=
-  obs.foldl (fun st oa => st.bind (fun s => sstep s oa)) (some none)
+/-- `none`: no replication stream yet; `some ws`: the consistent checker states -/
+abbrev SpecState := Option (List SS)
+
+def sstep : SpecState → Op × Ans → SpecState
+  | st, (.backoff n, .dur d) => if d == docBackoff n then st else some []
+  | none, (.init d _ _, .inited _) => some [{ drop := d }]
+  | none, (_, .notInit) => none
+  | none, _ => some []
+  | some ws, (op, a) => some (ws.flatMap fun w => wstep w op a)
+
+def run (obs : List (Op × Ans)) : SpecState := obs.foldl sstep none
 
 /-- The statement on one case. -/
-def holdsOn (obs : List (Op × Ans)) : Bool := (run obs).isSome
+def holdsOn (obs : List (Op × Ans)) : Bool :=
+  match run obs with
+  | none => true
+  | some ws => !ws.isEmpty
 
 /-- index of the first observation that violates the statement -/
-def firstFail (st : Option SS) : List (Op × Ans) → Nat → Option Nat
+def firstFail (st : SpecState) : List (Op × Ans) → Nat → Option Nat
   | [], _ => none
   | oa :: rest, i =>
     match sstep st oa with
-    | none => some i
-    | some st' => firstFail st' rest (i + 1)
+    | some [] => some i
+    | st' => firstFail st' rest (i + 1)
 
 end Influx.Spec.C27
